@@ -233,14 +233,14 @@ def r_def(d):
                 s += " = " + r_int(e["value"], e["base"])
             ens.append(s)
         return pre + "%s%senum %s%s { %s }" % ("compact " if d["compact"] else "", "unchecked " if d["unchecked"] else "", d["name"],
-                                               (" : " + d["underlying"]) if d["underlying"] else "", ", ".join(ens))
+                                               (" : " + d["underlying"] + ("?" if d.get("underlying_opt") else "")) if d["underlying"] else "", ", ".join(ens))
     if k == "interface":
         ops = []
         for o in d["ops"]:
             rs = o["returns"]
-            if len(rs) == 0:
+            if len(rs) == 0 and not o.get("tuple"):
                 ret = ""
-            elif len(rs) == 1:
+            elif len(rs) == 1 and not o.get("tuple"):
                 m = rs[0]
                 ret = " -> %s%s%s" % (("tag(%d) " % m["tag"]) if m["tag"] is not None else "", "stream " if m.get("stream") else "", r_type(m["type"]))
             else:
